@@ -414,6 +414,17 @@ func init() {
 				}
 				jobs = append(jobs, j)
 			}
+			// condition values and the parser's mode/term with letters of either case (mode= and
+			// term= compare exactly; application names without regard to case)
+			caseD := []int{2, 3}
+			if tier == "thorough" {
+				caseD = []int{2, 3, 4}
+			}
+			for _, d := range caseD {
+				j := mkJob("/inputrc.ZZ_C13_Cond", "", "d", itoa(d), "case", "1")
+				j.Reach = []string{"wellformed"}
+				jobs = append(jobs, j)
+			}
 			// programs that may $include (once) a file holding a conditional block of its own
 			incD := []int{3, 4}
 			if tier == "thorough" {
@@ -429,11 +440,11 @@ func init() {
 		Assumptions: []string{
 			"include jobs: a tenth directive kind, $include of a file served by the handler whose content is '$if mode=m<letter> / bind / $else / bind / $endif' with a symbolic letter; reference: the file takes effect iff the including block is active, it is evaluated on its own (fresh condition stack, keymap emacs) and leaves the including file's state untouched",
 			"programs are sequences of d directives over {$if mode=, $if term=, $if app, $else, $endif, set keymap, set var on|off, \"\\C-x<i>\": fn, Meta-<i>: \"macro\"}; only well-formed ones (balanced $if/$endif, at most one $else per $if) are compared",
-			"literals are chosen where GNU readline's and this library's readings coincide (terminal names without '-', lower-case application names)",
+			"literals are chosen where GNU readline's and this library's readings coincide (terminal names without '-', application name registered in lower case); jobs with case=1: the letters of $if values and of the parser's mode and term are of either case (mode=/term= compare exactly, application names case-insensitively)",
 			"handler is an empty inputrc.Config",
 		},
 		Stubs:  []string{"bufio.Scanner/bytes.Reader interpreted"},
-		Bounds: map[string]string{"quick": "program length d <= 5; directive kind per slot, condition names and the parser's (mode, term, app) symbolic; with $include: d = 3, 4", "thorough": "d <= 6; with $include d <= 5"},
+		Bounds: map[string]string{"quick": "program length d <= 5; directive kind per slot, condition names and the parser's (mode, term, app) symbolic; with $include: d = 3, 4; mixed-case names: d = 2, 3", "thorough": "d <= 6; with $include d <= 5; mixed-case names d <= 4"},
 		Rule:   "one state per completed symbolic path: directive kinds are symbolic ints, $if operands and the parser's mode/term/app are names with a symbolic letter, so which conditions hold is decided by the solver; assertions compare the real Config with the reference evaluator",
 	}
 }
